@@ -8,13 +8,15 @@ DEFAULT = {
     "thorough": dict(configs=["asan"], types="sdcz", shards=4, cases=60000, max_size=1500, budget=420, min_nontrivial=500, alarm=300),
 }
 
+FUZZ = dict(runs=400000, workers=16, max_len=1500, max_time=420)
 VB = ["asan", "asan-vb"]
 I64 = ["asan", "asan-i64"]
 ALL3 = ["asan", "asan-vb", "asan-i64"]
 OVERRIDE = {
-    "C01": {"thorough": dict(configs=ALL3)}, "C02": {"thorough": dict(configs=ALL3)}, "C03": {"thorough": dict(configs=ALL3)},
-    "C05": {"thorough": dict(configs=VB)}, "C12": {"thorough": dict(configs=VB)}, "C13": {"thorough": dict(configs=VB)}, "C14": {"thorough": dict(configs=VB)},
-    "C07": {"thorough": dict(configs=I64)}, "C17": {"thorough": dict(configs=I64)}, "C19": {"thorough": dict(configs=I64)}, "C06": {"thorough": dict(configs=VB)}, "C15": {"thorough": dict(configs=I64)},
+    "C01": {"thorough": dict(configs=ALL3)}, "C02": {"thorough": dict(configs=ALL3)}, "C03": {"thorough": dict(configs=ALL3, fuzz=FUZZ)},
+    "C05": {"thorough": dict(configs=VB)}, "C12": {"thorough": dict(configs=VB)}, "C13": {"thorough": dict(configs=VB)}, "C14": {"thorough": dict(configs=VB, fuzz=FUZZ)},
+    "C07": {"thorough": dict(configs=I64)}, "C17": {"thorough": dict(configs=I64)}, "C19": {"thorough": dict(configs=I64, fuzz=FUZZ)}, "C06": {"thorough": dict(configs=VB, fuzz=FUZZ)}, "C15": {"thorough": dict(configs=I64, fuzz=FUZZ)},
+    "C16": {"thorough": dict(fuzz=FUZZ)},
     "C09": {"quick": dict(types="d", shards=6, configs=["tsan", "asan"], cases=1500, budget=45), "thorough": dict(types="d", shards=8, configs=["tsan", "asan"], cases=20000, budget=600)},
     "C08": {"quick": dict(cases=1500, budget=50), "thorough": dict(cases=20000, budget=600, configs=["asan", "asan-i64"])},
     "C10": {"quick": dict(types="d", shards=16), "thorough": dict(types="d", shards=8, configs=["asan", "asan-i64"])},
@@ -109,6 +111,8 @@ def plan_for(prop, tier):
     p.update(OVERRIDE.get(prop, {}).get(tier, {}))
     # VF_BUDGET_SCALE (e.g. 0.25) shortens exploratory runs; registered commands never set it
     sc = float(os.environ.get("VF_BUDGET_SCALE", "1") or 1)
+    if sc != 1 and p.get("fuzz"):
+        f = dict(p["fuzz"]); f["runs"] = max(1000, int(f["runs"] * sc)); f["max_time"] = max(20, int(f["max_time"] * sc)); p["fuzz"] = f
     if sc != 1:
         p["cases"] = max(100, int(p["cases"] * sc)); p["budget"] = max(5, int(p["budget"] * sc)); p["min_nontrivial"] = max(2, int(p["min_nontrivial"] * sc))
     return p
